@@ -96,7 +96,7 @@ def gen_exhaustive(tier):
     cases = []
     n = 0
     for m, ln in plan:
-        alpha = ["some %d" % i for i in range(0, m + 2)] + ["none"] + ["remove %d" % i for i in range(1, m + 1)]
+        alpha = ["some %d" % i for i in range(0, m + 2)] + ["none"] + ["remove %d" % i for i in range(1, m + 2)]     # incl. an id that can never be open (a stray CloseOk)
         for seq in itertools.product(alpha, repeat=ln):
             n += 1
             cases.append(Case("x%d" % n, ["max %d" % m] + list(seq)))
